@@ -668,11 +668,10 @@ func c18Ins(kind string, uniq int) []*c18Piece {
 }
 
 // the recorded findings, by the guard of C18_partial a history violates.  The former guards "leaked-code"
-// (C18-rejected-piece-code-runs-later), "stuck-compiler" (C18-compiler-stuck-in-function) and "capacity"
-// (C18-stack-slot-per-piece) are gone: those defects were repaired in /repo, the model follows the repaired code,
-// and a recurrence is an unlisted violation of the Spec.
+// (C18-rejected-piece-code-runs-later), "stuck-compiler" (C18-compiler-stuck-in-function), "capacity"
+// (C18-stack-slot-per-piece) and "stale-fn" (C18-function-globals-snapshot) are gone: those defects were repaired
+// in /repo, the model follows the repaired code, and a recurrence is an unlisted violation of the Spec.
 var c18Finding = map[string]string{
-	"stale-fn":           "C18-function-globals-snapshot",
 	"decl-after-failure": "C18-failed-piece-declares",
 }
 
@@ -784,8 +783,9 @@ func c18Split(s string) []string {
 }
 
 // compare checks the real incremental run against a prediction (outcomes + traces); it returns the
-// first difference ("" if none).  strictRuntime=false stops comparing run-time observables once a
-// stale-globals statement ran (the model only says that the view was stale, not what it contained).
+// first difference ("" if none).  A trace entry marked as run against a stale globals copy (`~`) would stop the
+// comparison of run-time observables with the Impl model; since the repair of C18-function-globals-snapshot the model
+// never marks one (no_stale_view), so every history is compared in full.
 func (h *c18History) compare(env *c18Env, real []*c18Obs, pr *c18Pred, ids []*c18Stmt, impl bool) string {
 	var prog []string // reference program so far
 	tainted := false
@@ -1167,6 +1167,7 @@ func c18_runC18(e *Env) {
 	// (the directed histories of the recorded and of the REPAIRED defects come first: if a repair is lost, the
 	// first replay is the few-line history that shows it)
 	c18Directed(e, env)
+	c18FnGlobals(e, env)
 	if os.Getenv("C18_SKIP_DIRECTED_HOST") == "" { // debugging aid: look at what the generated histories find on their own
 		c18DirectedHost(e, env)
 	}
@@ -1621,7 +1622,7 @@ func c18DirectedHost(e *Env, env *c18Env) {
 				s.Leaves, s.Uses, s.Asg, s.CDecl, s.FDefs = true, []string{N}, []string{N}, []string{"zs"}, []string{"zs"}
 			}), mk("zs()", func(s *c18Stmt) { s.IsExpr, s.Leaves, s.Uses, s.Calls = true, true, []string{"zs"}, []string{"zs"} })),
 			piece(read()))
-		// a function loaded by an earlier run keeps that run's copy of the globals (known finding), host-supplied or not
+		// a function loaded by an earlier run sees the rebinding too (repaired finding C18-function-globals-snapshot), host-supplied or not
 		run("function reads the name rebound by a later piece", []string{"zh"},
 			piece(mk("func zh() { return "+N+" }", func(s *c18Stmt) {
 				s.Leaves, s.Uses, s.CDecl, s.FDefs = true, []string{N}, []string{"zh"}, []string{"zh"}
@@ -1686,7 +1687,9 @@ func c18Directed(e *Env, env *c18Env) {
 		}
 		run("1030 x `"+t.src+"`", &c18History{Pieces: ps, Light: true})
 	}
-	// (3) a function defined in one piece keeps that run's copy of the globals
+	// (3) a function defined in one piece reads and writes the globals of the later pieces: before the repair of
+	// C18-function-globals-snapshot it kept the globals array of the run that loaded it; kept as a regression test
+	// (every partition of such programs: c18FnGlobals)
 	fdef := mk("func zget() { return zx }", func(s *c18Stmt) {
 		s.Leaves, s.Uses, s.CDecl, s.FDefs = true, []string{"zx"}, []string{"zget"}, []string{"zget"}
 	})
